@@ -24,9 +24,18 @@ fn tid() -> u64 {
     ID.with(|x| *x)
 }
 
+/// Set by drivers that steer fault injection by protocol phase: true between the first allocation of a
+/// write batch and the batch's failure / publication.
+pub static IN_BATCH: std::sync::atomic::AtomicBool = std::sync::atomic::AtomicBool::new(false);
+
 pub fn install() {
     EVENTS.lock().unwrap().clear();
     feoxdb::verif::install(Box::new(|seq, ev| {
+        match ev.kind {
+            "alloc" => IN_BATCH.store(true, std::sync::atomic::Ordering::SeqCst),
+            "batch_fail" | "publish" | "alloc_fail" => IN_BATCH.store(false, std::sync::atomic::Ordering::SeqCst),
+            _ => {}
+        }
         let raw = RawEv {
             seq,
             tid: tid(),
